@@ -449,13 +449,24 @@ func genScenario(R *rand.Rand, thorough bool) *scenario {
 			emit(op{Kind: "route-remove", Class: ci[0].(int), Iface: ci[1].(string), Key: &k})
 		case x < 17:
 			name := ifaces[R.Intn(len(ifaces))]
-			switch R.Intn(5) {
+			if R.Intn(2) == 0 {
+				name = cis[R.Intn(len(cis))][1].(string) // an interface the managers use
+				if name == routetable.InterfaceNone {
+					name = "eth0"
+				}
+			}
+			switch R.Intn(8) {
 			case 0:
 				emit(op{Kind: "link-del", Iface: name, Deliver: R.Intn(3) != 0})
 			case 1:
 				emit(op{Kind: "link-recreate", Iface: name, Admin: true, Oper: R.Intn(4) != 0, Deliver: R.Intn(3) != 0})
 			case 2:
 				emit(op{Kind: "link-set", Iface: name, Admin: false, Oper: false, Deliver: R.Intn(3) != 0})
+			case 3, 4, 5:
+				emit(op{Kind: "link-flap", Iface: name, Deliver: R.Intn(4) != 0})
+				if R.Intn(4) != 0 {
+					emit(op{Kind: "apply"}) // an interface event wakes the main loop
+				}
 			default:
 				emit(op{Kind: "link-set", Iface: name, Admin: true, Oper: R.Intn(5) != 0, Deliver: R.Intn(3) != 0})
 			}
@@ -1125,7 +1136,13 @@ func runScenario(c *harness.Case, sc *scenario, plan *faultPlan, seenKeys map[st
 		r.cnt["calls_"+fp.Op]++
 		if m != "" {
 			r.faults++
-			r.dirty = true
+			switch fp.Op {
+			case "route-replace", "route-del", "neigh-set":
+				// A refused write changes nothing in the kernel and Felix is told about it: its picture
+				// stays exact, so convergence is still judged after the next successful Apply.
+			default:
+				r.dirty = true
+			}
 			r.cnt["faults_"+fp.Op]++
 			if fp.Op == "new-handle" || fp.Op == "set-timeout" {
 				r.connFaults++
@@ -1217,6 +1234,17 @@ func runScenario(c *harness.Case, sc *scenario, plan *faultPlan, seenKeys map[st
 		case "link-set":
 			if l, ok := r.k.SetLink(o.Iface, o.Admin, o.Oper); ok {
 				r.count("link_ops", 1)
+				linkEvent(l, true, o.Deliver)
+			}
+		case "link-flap":
+			// admin down (the kernel flushes the device's routes) and straight up again
+			before := len(r.k.Routes())
+			if l, ok := r.k.SetLink(o.Iface, false, false); ok {
+				r.count("flap_flushed_routes", int64(before-len(r.k.Routes())))
+				linkEvent(l, true, false)
+				l, _ = r.k.SetLink(o.Iface, true, true)
+				r.count("link_ops", 2)
+				r.count("link_flaps", 1)
 				linkEvent(l, true, o.Deliver)
 			}
 		case "deliver":
@@ -1376,15 +1404,33 @@ func main() {
 	harness.Main(harness.Check{
 		ID:    "C17",
 		Level: "fault_enumeration",
-		Rule:  "TODO",
+		Rule: "a case = PRNG scenario: IPv4/IPv6 RouteTable on the main table with ownershippol.NewMainTable (DeviceRouteProtocol boot/80/90, RemoveExternalRoutes, ProgramIPIPClusterRoutes varied) " +
+			"or on a dedicated table with ExclusiveOwnershipPolicy; starting kernel = up to 10 links in mixed admin/oper states, foreign routes (other protocols, other tables, other family, same destination with another metric, " +
+			"BIRD routes on tunl0 / workload interfaces, RTPROT_BOOT on the host NIC) and stale Felix routes; history of 8-34 ops: SetRoutes/RouteUpdate/RouteRemove over 11 (class, interface) pairs with conflicting CIDRs, " +
+			"link delete/recreate (new ifindex)/down/up/flap with interface events delivered at once or late, QueueResync, Apply, virtual time, out-of-band route edits, restarts, checkpoints. " +
+			"Executed fault-free, then once per netlink call of that run (connect, set-timeout, link list/get, route dump, replace, delete, neigh set) with that call failing, then bursts and random multi-faults. " +
+			"non-trivial = >=5 fault runs hit, >=1 desired key and >=1 foreign route compared; distinct by scenario",
+		Assumptions: []string{
+			"verif/internal/fakenl models rtnetlink: FIB keyed by (family, table, prefix, tos, metric; IPv6 metric 0 = 1024), RouteReplace creates-or-replaces and needs an existing, admin-up device, RTM_DELROUTE wildcards, route flush on link down/delete, fresh ifindex on re-creation, ENODEV for a dump filtered on a missing device in strict mode, EINTR dumps",
+			"not modelled by fakenl: gateway reachability, connected routes/addresses, multipath validation, rules, real socket timeouts (a timeout is an injected error and the write is then NOT applied), concurrent netlink clients",
+			"the repo's felix/netlinkshim/mocknetlink was not used: its methods contain gomega assertions, RouteDel succeeds for missing routes and links do not flush routes",
+			"the reference ownership rule is re-implemented from the documentation of ownershippol; foreign routes never use exactly the FIB key of a desired route (Felix replaces those by design)",
+			"felix/routetable imports libbpf: built with CGO_ENABLED=0, so no race detector (the conntrack cleanup goroutines are therefore not race-checked)",
+			"interface events are delivered in kernel order (possibly late, never reordered or coalesced)",
+		},
 		Cases: func(tier string) int {
 			if tier == "thorough" {
-				return 8000
+				return 6000
 			}
 			return 400
 		},
 		Run:         run,
 		CaseTimeout: 15 * time.Minute,
-		Floors:      map[string]int64{},
+		Floors: map[string]int64{
+			"apply_ok": 3000, "d_checks": 2000, "checkpoints": 700, "s_checks": 3000, "desired_keys_checked": 5000, "foreign_checked": 5000, "owned_checked": 2000,
+			"calls_route-replace": 2500, "calls_route-del": 800, "calls_route-list": 1500, "calls_link-list": 1500, "calls_new-handle": 1000, "calls_link-by-name": 100,
+			"faults_route-replace": 120, "faults_route-del": 50, "faults_route-list": 60, "faults_link-list": 60, "faults_new-handle": 70, "faults_set-timeout": 60, "faults_link-by-name": 8,
+			"link_ops": 700, "link_flaps": 150, "iface_events": 600, "oob_edits": 600, "apply_gave_up": 5, "cases_policy_exclusive": 5,
+		},
 	})
 }
